@@ -867,9 +867,29 @@ func ruleReportsErrorExact(c *chk.Ctx) {
 					}
 				}
 			} else {
-				for _, cs := range expandPredicateHelpers(c, []ir.Cond{{V: st.Val, Truth: true}}, 0) {
-					if len(cs) == 1 && isTypeEq(cs[0]) {
-						ok = true
+				// the value may travel through a field of a small result struct: every way it
+				// is produced must be the identity test (or the constant false)
+				stopAt := func(v ssa.Value) bool {
+					switch v.(type) {
+					case *ssa.BinOp, *ssa.Const:
+						return true
+					}
+					return false
+				}
+				srcs := c.P.SourcesStop(st.Val, stopAt)
+				ok = len(srcs) > 0
+				for _, src := range srcs {
+					good := false
+					if k, isK := src.(*ssa.Const); isK && k.Value != nil && k.Value.String() == "false" {
+						good = true
+					}
+					for _, cs := range expandPredicateHelpers(c, []ir.Cond{{V: src, Truth: true}}, 0) {
+						if len(cs) == 1 && isTypeEq(cs[0]) {
+							good = true
+						}
+					}
+					if !good {
+						ok = false
 					}
 				}
 			}
